@@ -35,6 +35,20 @@ def dyadic_tol_specs(ctx):
     return specs
 
 
+def typed_dyadic_tol_specs(ctx):
+    """tol_mesh an exact power of two given as a single-precision NumPy number (np.float32(2**-15), ...): the internal tolerance is derived through
+    log(tol_mesh)/log(2), which must not be taken in single precision; runs long enough to stop on the mesh tolerance."""
+    from .. import gen
+    rng = ctx.sub_rng("c13typed")
+    specs = []
+    for e, mode in ((-15, "det"), (-15, "det"), (-19, "det")) + (() if ctx.quick else ((-15, "decl"), (-19, "det"), (-23, "det"), (-15, "det"), (-12, "det"), (-16, "det"))):
+        sp = gen.make_spec(rng, D=rng.choice([1, 1, 2]), geom=rng.choice(["box", "tight"]), mode=mode, cons=None, opt_loc="inside", target=rng.choice(["quad", "abs"]))
+        sp["options"] = {"n_search": 32, "accelerate_mesh": True, "tol_fun": 1e-14, "tol_stall_iters": 200, "max_fun_evals": 400 if mode == "det" else 500, "noise_final_samples": 0}
+        sp["np_options"] = {"tol_mesh": f"np.float32(2.0 ** {e})"}
+        specs.append(sp)
+    return specs
+
+
 def unlocked_search_mesh_specs(ctx):
     """search_size_locked = False (the search mesh is then only tightened after failed polls, and turned into a size at the top of the loop),
     runs long enough for the poll mesh to fall below the initial search mesh (2^-10)."""
@@ -53,6 +67,7 @@ def run(ctx):
     runlevel.with_extra(ctx, "c13unlocked", lambda: unlocked_search_mesh_specs(ctx))
     runlevel.with_extra(ctx, "c13stall", lambda: stalling_noisy_specs(ctx))
     runlevel.with_extra(ctx, "c13dyadic", lambda: dyadic_tol_specs(ctx))
+    runlevel.with_extra(ctx, "c13typed", lambda: typed_dyadic_tol_specs(ctx))
     runlevel.scripted_controller_runs(ctx, "c13script", 12 if ctx.quick else 120)
     # stalling runs with mesh acceleration explicitly switched OFF (mostly tiny / negative scripted improvements, so that polls fail while
     # the history stalls): a failed poll must halve the mesh, never quarter it
